@@ -1,5 +1,4 @@
 import Muxide.Props.C10Generated
-import Muxide.Props.C19Generated
 /-
   C11 (mechanical tie) — the base decode time of a segment and the moment the sequence counter advances are
   decided in `FragmentedMuxer::flush_segment`, the rejection floor in `write_video`; both are translated from the
@@ -24,45 +23,14 @@ theorem C11_gen_flush_effect (f : Frag) (s : FSample) (r : List FSample) (h : f.
   unfold Frag.flush
   simp [h]
 
-/-! ### `build_trun`: the per-sample rows -/
+/-- `build_trun` = the model's trun box (proved in Props/C10Generated.lean; restated for C11, whose theorems
+    `C11_duration`, `C11_flags`, `C11_cts_exact` read this box) -/
+theorem C11_gen_trun (samples : List FSample) (off : Nat) : build_trun samples off = (fTrun samples off).ser :=
+  Muxide.Props.C10Generated.C10_gen_trun samples off
 
-theorem mem_zip_range {α} (l : List α) (i : Nat) (x : α) (h : (i, x) ∈ List.zip (List.range l.length) l) :
-    l[i]? = some x := by
-  obtain ⟨k, hk, hkx⟩ := List.mem_iff_getElem.mp h
-  simp only [List.getElem_zip, List.getElem_range, Prod.mk.injEq] at hkx
-  obtain ⟨rfl, rfl⟩ := hkx
-  have : k < l.length := by simpa using hk
-  simp [this]
-
-theorem flatMap_congr_mem {α} (l : List α) (f g : α → Bytes) (h : ∀ x ∈ l, f x = g x) : l.flatMap f = l.flatMap g := by
-  induction l with
-  | nil => rfl
-  | cons a r ih =>
-    simp only [List.flatMap_cons]
-    rw [h a (by simp), ih (fun x hx => h x (by simp [hx]))]
-
-theorem trun_flag_word : (16777216 ||| (1 ||| 256 ||| 512 ||| 1024 ||| 2048)) = 0x01000000 + 0xF01 := by decide
-
-/-- `build_trun(samples, data_offset)` is the serialisation of the model's trun box: version 1 with the four
-    per-sample fields present, the sample count, the data offset, then per sample its duration (gap to the next
-    sample; for the last sample the previous gap; 3000 for a lone sample), size, sync/non-sync flags word and
-    signed composition offset — for every list of samples -/
-theorem C11_gen_trun (samples : List FSample) (off : Nat) : build_trun samples off = (fTrun samples off).ser := by
-  rw [fTrun, Muxide.Props.C19Generated.ser_leaf]
-  unfold build_trun
-  dsimp only
-  rw [flatMap_congr_mem (g := fun (x : Nat × FSample) => match x with | (i, s) => trunRow samples i s)]
-  · simp only [List.nil_append, List.append_assoc, Muxide.Props.C19Generated.u32be_mod, trun_flag_word]
-    rfl
-  · intro p hp
-    obtain ⟨i, sm⟩ := p
-    have hi := mem_zip_range samples i sm hp
-    simp only [trunRow, trunDuration, hi, Option.map_some, Option.getD_some, List.nil_append, List.append_assoc,
-      Muxide.Props.C19Generated.u32be_mod]
-    split
-    · rw [Muxide.Props.C19Generated.u32be_mod]
-    · split
-      · rw [Muxide.Props.C19Generated.u32be_mod]
-      · rfl
+/-- `build_moof_with_offset` = the model's moof -/
+theorem C11_gen_moof (samples : List FSample) (seq base off : Nat) :
+    build_moof_with_offset samples seq base off = (fMoof samples seq base off).ser :=
+  Muxide.Props.C10Generated.C10_gen_moof samples seq base off
 
 end Muxide.Props.C11Generated
